@@ -356,22 +356,24 @@ def work_graphs(task):
             try:
                 with warnings.catch_warnings():
                     warnings.simplefilter("ignore")
-                    op = ops.GraphEmbed(A, mean_photon_per_mode=nbar) if kind == "graph" else (ops.BipartiteGraphEmbed(Bm, mean_photon_per_mode=nbar, edges=True) if edges else ops.BipartiteGraphEmbed(A, mean_photon_per_mode=nbar))
+                    op = ops.GraphEmbed(A, mean_photon_per_mode=nbar, make_traceless=True) if kind == "graph-traceless" else ops.GraphEmbed(A, mean_photon_per_mode=nbar) if kind == "graph" else (ops.BipartiteGraphEmbed(Bm, mean_photon_per_mode=nbar, edges=True) if edges else ops.BipartiteGraphEmbed(A, mean_photon_per_mode=nbar))
                     out = decompose("gaussian", Command(op, regs))
                 got = sem_of(out, k)
             except Exception as e:
                 res.violation(f"C02|{kind}|raises", f"{kind} embedding raised {type(e).__name__}: {e}", case)
                 continue
             res.nt += 1
+            # the documented option make_traceless: the matrix that is embedded is A - tr(A)/n * 1
+            T = A - np.trace(A) * np.eye(k) / k if kind == "graph-traceless" else A
             V = got.X @ got.X.T + got.Y
             B = bmatrix(V)
             nb = sum((V[i, i] + V[i + k, i + k]) / 4 - 0.5 for i in range(k)) / k
-            mask = np.abs(A) > 0
-            c = float(np.real(np.vdot(A[mask], B[mask]) / np.vdot(A[mask], A[mask])))
+            mask = np.abs(T) > 0
+            c = float(np.real(np.vdot(T[mask], B[mask]) / np.vdot(T[mask], T[mask])))
             if abs(nb - nbar) > 1e-7:
                 res.violation(f"C02|{kind}|mean-photon{ident}", f"{kind} embedding of a {k}-node graph has mean photon number per mode {nb:.6g}, requested {nbar}", case)
-            elif c <= 0 or np.max(np.abs(B - c * A)) > 1e-7:
-                res.violation(f"C02|{kind}|adjacency{ident}", f"{kind} embedding of a {k}-node graph: state's A matrix is not a positive multiple of the adjacency matrix (best c = {c:.4g}, residual {np.max(np.abs(B - c * A)):.3g})", case)
+            elif c <= 0 or np.max(np.abs(B - c * T)) > 1e-7:
+                res.violation(f"C02|{kind}|adjacency{ident}", f"{kind} embedding of a {k}-node graph: state's A matrix is not a positive multiple of the adjacency matrix (best c = {c:.4g}, residual {np.max(np.abs(B - c * T)):.3g})", case)
     return res
 
 
@@ -435,6 +437,11 @@ def run(ctx):
         graphs.append(("graph", np.eye(k)))
         graphs.append(("graph", 0.5 * np.eye(k)))
     graphs.append(("graph", np.array([[1.0, 0.5], [0.5, 0.3]])))
+    # the option make_traceless on graphs with unequal self-loops (2 and 3 nodes, every edge set incl. none)
+    for k in (2, 3):
+        for A in [np.zeros((k, k))] + list(all_graphs(k)):
+            for D in (np.diag([1.0] + [0.0] * (k - 1)), np.diag([(i + 1) / k for i in range(k)])):
+                graphs.append(("graph-traceless", A + D))
     for k in (1, 2):
         for bits in itertools.product([0, 1, 0.5], repeat=k * k):
             Bm = np.array(bits, dtype=float).reshape(k, k)
